@@ -30,11 +30,24 @@ No Mathlib.
 -/
 import JsonbModel.Proofs.ChainCheck
 import JsonbModel.Proofs.ChainFuel
+import JsonbModel.Proofs.SelFuel
+import JsonbModel.Proofs.ParserShape
 
 namespace Jsonb.Props
 open Jsonb JV
 
 /-! ### one step -/
+
+/-- **the JSONPath side condition needs no fuel hypothesis**: for every supported path (in
+particular every path the parser accepts, `C07_path_parsed`) the evaluator fuel used in a chain
+is adequate -/
+theorem C07_path_supp (v : JV) (hg : goodTop v = true) (jp : JsonPath) (hs : suppPaths jp = true)
+    (hhead : jp.head? ≠ some .current) : PathOK v jp := pathOK_of_supp v hg jp hs hhead
+theorem C07_path_parsed (v : JV) (hg : goodTop v = true) (bs : Bytes) (jp : JsonPath)
+    (hp : parseJsonPath bs = .ok jp) : PathOK v jp :=
+  let ⟨hs, _, hh⟩ := parseJsonPath_supp bs jp hp
+  pathOK_of_supp v hg jp hs hh
+
 
 /-- **C07, one step.**  On a canonical document `v`, under the side conditions `OpOK v op`, the
 byte-level operation applied to `encodeSpec v` (literal arguments encoded) does not fail and
